@@ -4,7 +4,7 @@ Technique: explicit-state BFS (E-bfs) over *all* call histories of the cursor AP
 (real beanquery.Cursor, reference model), until the canonical product state space closes -- which
 covers histories of any length over the alphabet.
 
-Alphabet   execute(q_n) for result sizes n in SIZES (q_n alternates 1- and 2-column statements so
+Alphabet   cursor.execute(q_n) and connection.execute(q_n) (a new cursor) for result sizes n in SIZES (q_n alternates 1- and 2-column statements so
            that description changes), fetchone, fetchmany() (arraysize default), fetchmany(k),
            fetchall, list(iter(cursor)), one next(iter(cursor)), arraysize := k; the same on a
            second cursor of the same connection, created before or after the first one executes.
@@ -151,6 +151,13 @@ class OneCursor:
             if r is not cur:
                 out.append(('execute-return', 'execute() did not return the cursor'))
             m.n, m.rows, m.pos = n, expected_rows(n), frozenset([0])
+        elif kind == 'cexec':
+            # Connection.execute(): a NEW cursor of the same connection replaces this one
+            n = ev[1]
+            cur = self.real = self.conn.execute(stmt_for(n))
+            if not isinstance(cur, beanquery.Cursor):
+                out.append(('connection-execute-return', f'Connection.execute() returned {cur!r}'))
+            m.n, m.rows, m.pos, m.arraysize = n, expected_rows(n), frozenset([0]), 1
         elif kind == 'arraysize':
             cur.arraysize = ev[1]
             m.arraysize = ev[1]
@@ -287,7 +294,7 @@ class Product2:
 
 
 def alphabet(sizes, ks, asz):
-    evs = [('exec', n) for n in sizes]
+    evs = [('exec', n) for n in sizes] + [('cexec', n) for n in sizes[-2:]]
     evs += [('one',), ('many', None)] + [('many', k) for k in ks] + [('all',), ('iterall',), ('iternext',)]
     evs += [('arraysize', k) for k in asz]
     return evs
@@ -402,7 +409,7 @@ def run(ctx):
     def collect():
         # re-enumerate canonical histories breadth first (deterministic) up to depth 4
         return [h for h in itertools.chain.from_iterable(itertools.product(ev1, repeat=d) for d in (1, 2, 3))
-                if h[0][0] == 'exec']
+                if h[0][0] == 'exec' and all(e[0] != 'cexec' for e in h)]
     hists = collect()
     if ctx.quick:
         hists = hists[::7]
